@@ -42,6 +42,15 @@ func c05Families(c *core.Ctx) {
 			}
 		}
 	}
+	// numerics whose field is only renamed by a goJSONSchema.identifier block keep every check
+	for _, kind := range []string{"integer", "number"} {
+		for _, pos := range []string{"ext-required", "ext-optional"} {
+			for _, kws := range [][]string{{"minimum"}, {"maximum", "multipleOf"}} {
+				sp := &fam.Spec{Kind: kind, Kw: kws}
+				ms = append(ms, member{name: kind + " " + pos + " " + sp.String(), cfg: gen.DefaultConfig(), root: place(sp, pos)})
+			}
+		}
+	}
 	// the nullable positions (type lists with null in either order) are part of the full product in the thorough tier; the quick
 	// tier keeps a cross-section of them, because a nullable primitive reaches the validators through a different type (pointer) path
 	if c.Tier != "thorough" {
